@@ -441,6 +441,9 @@ def evaluate__sum(self: XPathFunction, context: ta.ContextType = None) -> ta.One
     xsd_version = self.parser.xsd_version
     values: list[Any]
     items = [x for x in self[0].select_flatten(context)]  # errors of the argument are not FORG0006
+    if self.parser.version != '1.0':
+        # xs:untypedAtomic values are cast to xs:double: an invalid one is an error, not NaN
+        items = [self.cast_to_double(x.value) if isinstance(x, UntypedAtomic) else x for x in items]
     try:
         values = [get_double(self.string_value(x), xsd_version)
                   if isinstance(x, XPathNode) else x
